@@ -48,6 +48,12 @@ Theorem C11_whole_run_is_replay {PS' : Type} (react : nat -> PS' -> F -> cb F ->
   after (m_next A cfg) (m0 cfg) (i0 ++ items) = mkM (s_pos (k_h s')) (s_tgt (k_h s')) (s_speed (k_h s')).
 Proof. exact (whole_run_moves A cfg react c fuel ps0). Qed.
 
+Theorem C11_any_driving_is_replay {PS' : Type} (react : nat -> PS' -> F -> cb F -> PS' * list (action F)) (c : kcfg F) ops ps0 :
+  let '(s0, i0) := sim_start A cfg ps0 in
+  let '(s', items) := sim_drive A cfg react c ops s0 in
+  after (m_next A cfg) (m0 cfg) (i0 ++ items) = mkM (s_pos (k_h s')) (s_tgt (k_h s')) (s_speed (k_h s')).
+Proof. exact (whole_drive_moves A cfg react c ops ps0). Qed.
+
 Theorem C11_one_update (x : mstate) n :
   n < c_nnodes cfg -> c_nnodes cfg <= length (m_pos x) ->
   nth n (step_all A cfg x) (zero3 A) = step1 A cfg (nth n (m_pos x) (zero3 A)) (nth n (m_tgt x) None) (nth n (m_speed x) (f0 A)).
@@ -81,4 +87,5 @@ Print Assumptions C11_commands_do_not_move.
 Print Assumptions C11_advance.
 Print Assumptions C11_lands_R.
 Print Assumptions C11_whole_run_is_replay.
+Print Assumptions C11_any_driving_is_replay.
 Print Assumptions C11_one_update.
